@@ -42,7 +42,7 @@ def teardown(ctx):
 
 
 DIRS = ["", "a", "a/b", "c", "a/b/d", "c/e"]
-HEADS = ["Alpha Beta", "Same", "Same", "Gamma `code`", "Ünï cödé", "Delta!"]
+HEADS = ["Alpha Beta", "Same", "Same", "Gamma `code`", "Ünï cödé", "Delta!", "Same 1", "Same 2", "Same", "same-1"]  # duplicates next to titles that look like suffixed duplicates
 
 
 def make_project(R):
@@ -54,7 +54,7 @@ def make_project(R):
     for k in range(nd):
         d = R.choice(dirs)
         name = posixpath.join(d, f"doc{k}") if d else f"doc{k}"
-        heads = [R.choice(HEADS) for _ in range(R.randint(1, 4))]
+        heads = [R.choice(HEADS) for _ in range(R.randint(1, 4) if R.random() < 0.7 else R.randint(4, 7))]
         docs.append({"name": name, "title": f"Title of D{k}", "heads": heads, "label_h": R.choice([f"lblh-{k}", f"LblH-{k}", f"LBLH_{k}"]), "label_p": R.choice([f"lblp-{k}", f"Lbl.P-{k}"]), "label_on": R.randrange(len(heads))})
     extra = [posixpath.join(R.choice(dirs), f"data{j}.txt").lstrip("/") for j in range(2)]
     if R.random() < 0.7:
@@ -319,8 +319,9 @@ def eval_case(ctx, case):
         ctx.count("projects_built")
         if case.get("parallel"):
             ctx.count("projects_built_parallel")
-        build_records = list(b.records)  # resolving doctrees again below would log the same warnings a second time
-        recs = [r for r in build_records if r["type"] == "myst" and r["subtype"] == "xref_missing"]
+        # the warning STREAM of the build (what the user sees, after Sphinx' handler-level filters); resolving doctrees again below would log once more
+        recs = [r for r in b.stream_records() if r["type"] == "myst" and r["subtype"] == "xref_missing"]
+        ctx.count("stream_vs_records_equal" if len(recs) == len([r for r in b.records if r["type"] == "myst" and r["subtype"] == "xref_missing"]) else "stream_vs_records_differ")
         judge(ctx, case, b, P, links, files, recs, "full")
         mutation = case.get("mutation")
         if mutation:
@@ -339,7 +340,7 @@ def eval_case(ctx, case):
                     return False
                 ctx.count("incremental_builds")
                 ctx.count("incremental:" + mutation + ":" + stage)
-                recs2 = [r for r in b.records if r["type"] == "myst" and r["subtype"] == "xref_missing"]
+                recs2 = [r for r in b.stream_records(b.resolve_warnings) if r["type"] == "myst" and r["subtype"] == "xref_missing"]
                 judge(ctx, case, b, Px, lx, {**files, **{k: v for k, v in ch.items() if v is not None}}, recs2, stage)
         return len({posixpath.dirname(d["name"]) for d in P["docs"]}) >= 2
     finally:
